@@ -17,6 +17,7 @@ import (
 	"crypto/md5"
 	"fmt"
 	"math/rand"
+	"net"
 	"os"
 	"path/filepath"
 	"sort"
@@ -108,6 +109,9 @@ func serverMap(c *srv.Conn) (map[string]string, error) {
 		return nil, err
 	}
 	m := map[string]string{}
+	if v.Kind != '*' {
+		return nil, fmt.Errorf("SERVER answered %s", v.String())
+	}
 	for i := 0; i+1 < len(v.Array); i += 2 {
 		e := v.Array[i+1]
 		s := e.Str
@@ -126,19 +130,21 @@ func followerStatus(port int) status {
 	}
 	defer c.Close()
 	c.Timeout = 5 * time.Second
-	m, err := serverMap(c)
-	if err != nil {
-		return status{err: err.Error()}
-	}
 	var st status
-	st.caughtUp = m["caught_up"] == "true"
-	st.once = m["caught_up_once"] == "true"
-	st.aofSize, _ = strconv.ParseInt(m["aof_size"], 10, 64)
 	h, err := c.Do("HEALTHZ")
 	if err != nil {
 		return status{err: err.Error()}
 	}
 	st.healthz = h.Kind == '+' && h.Str == "OK"
+	st.aofSize = -1
+	// SERVER is refused ("catching up to leader") until the follower has caught up once
+	if m, err := serverMap(c); err == nil {
+		st.caughtUp = m["caught_up"] == "true"
+		st.once = m["caught_up_once"] == "true"
+		st.aofSize, _ = strconv.ParseInt(m["aof_size"], 10, 64)
+	} else if !strings.Contains(err.Error(), "catching up") {
+		return status{err: err.Error()}
+	}
 	return st
 }
 
@@ -267,6 +273,69 @@ func countShrinkEnded(s *srv.Server) int {
 	return bytes.Count(b, []byte("aof shrink ended")) + bytes.Count(b, []byte("aof shrink failed"))
 }
 
+// ownPort hands out ports below the ephemeral range (which srv.FreePort and every outgoing connection on this machine
+// draw from), so that a port cannot be grabbed by somebody else between a follower's stop and its restart.
+var portMu sync.Mutex
+var nextPort = 11000 + (os.Getpid()*7)%9000
+
+func ownPort() int {
+	portMu.Lock()
+	defer portMu.Unlock()
+	for i := 0; i < 20000; i++ {
+		nextPort++
+		if nextPort >= 30000 {
+			nextPort = 11000
+		}
+		l, err := net.Listen("tcp", "127.0.0.1:"+strconv.Itoa(nextPort))
+		if err == nil {
+			l.Close()
+			return nextPort
+		}
+	}
+	return srv.FreePort()
+}
+
+// startOwn starts a server on dir and makes sure the process answering on the port is the one just started (ports
+// are picked by "was free a moment ago"; other harnesses run on the same machine). A different port is tried otherwise.
+func startOwn(dir string, port int) (*srv.Server, int) {
+	var lastErr error
+	for try := 0; try < 6; try++ {
+		s, err := srv.StartPort(dir, port)
+		if err == nil {
+			time.Sleep(30 * time.Millisecond)
+			if c, e := s.Dial(); e == nil {
+				m, e := serverMap(c)
+				c.Close()
+				if s.Alive() && ((e == nil && m["pid"] == strconv.Itoa(s.Cmd.Process.Pid)) || (e != nil && strings.Contains(e.Error(), "catching up"))) {
+					return s, port // (SERVER is refused on a follower that has not caught up yet)
+				}
+				lastErr = fmt.Errorf("server map: %v pid=%q map=%v", e, m["pid"], m)
+			}
+			err = fmt.Errorf("port %d is answered by another process (alive=%v pid=%d)", port, s.Alive(), s.Cmd.Process.Pid)
+		}
+		lastErr = fmt.Errorf("%v / %v", err, lastErr)
+		if s != nil {
+			s.Kill()
+		}
+		port = ownPort()
+	}
+	panic(fmt.Sprintf("cannot start a server on %s: %v", dir, lastErr))
+}
+
+// the follower logs "reloading aof commands" when followCheckSome cuts its file and reloads (the only trace of that
+// decision besides the position it then asks for)
+func countTruncations(s *srv.Server) int {
+	b, _ := os.ReadFile(s.LogF)
+	return bytes.Count(b, []byte("reloading aof commands"))
+}
+
+func lastTruncation(s *srv.Server, before int) int64 {
+	if countTruncations(s) <= before {
+		return -1
+	}
+	return 1
+}
+
 // ---- one scenario ----
 
 func (x *ctx) runScenario(sc Scenario, dir string) {
@@ -275,10 +344,7 @@ func (x *ctx) runScenario(sc Scenario, dir string) {
 			x.fail(hx.Failure{Kind: "oracle", Signature: "harness-panic", What: fmt.Sprintf("scenario %s: %v", sc.Name, e), Case: caseOf(sc, len(sc.Steps))})
 		}
 	}()
-	leader, err := srv.Start(filepath.Join(dir, "leader"))
-	if err != nil {
-		panic(err)
-	}
+	leader, _ := startOwn(filepath.Join(dir, "leader"), ownPort())
 	defer leader.Kill()
 	lc := leader.MustDial()
 	defer lc.Close()
@@ -301,6 +367,24 @@ func (x *ctx) runScenario(sc Scenario, dir string) {
 		return id
 	}
 	doLeader(sc.Pre)
+	if sc.Init == "boundary" {
+		// pad the leader's log so that a record ends exactly at byte checksumsz, then go on writing
+		sz := int(aofSizeOf(leader.Port))
+		for n := checksumsz - sz; n > 0; n-- {
+			rec := srv.Encode("SET", "big", "pad", "STRING", strings.Repeat("p", n))
+			if sz+len(rec) == checksumsz {
+				doLeader([][]string{{"SET", "big", "pad", "STRING", strings.Repeat("p", n)}})
+				break
+			}
+			if sz+len(rec) < checksumsz {
+				panic("cannot pad to the block boundary")
+			}
+		}
+		if aofSizeOf(leader.Port) != checksumsz {
+			panic(fmt.Sprintf("padding missed the block boundary: aof_size %d", aofSizeOf(leader.Port)))
+		}
+		doLeader(sc.Post)
+	}
 	marker := newMarker()
 	px, err := NewProxy(leader.Port)
 	if err != nil {
@@ -315,7 +399,7 @@ func (x *ctx) runScenario(sc Scenario, dir string) {
 	// ---- initial follower state ----
 	lbytes, _ := os.ReadFile(leaderAOF)
 	switch sc.Init {
-	case "prefix", "diverged":
+	case "prefix", "diverged", "boundary":
 		recs := splitRecords(lbytes)
 		cut := int(sc.PrefixCut * float64(len(recs)))
 		if cut > len(recs) {
@@ -340,11 +424,7 @@ func (x *ctx) runScenario(sc Scenario, dir string) {
 		}
 		os.WriteFile(fAOF, fb, 0o600)
 	}
-	fport := srv.FreePort()
-	follower, err := srv.StartPort(fdir, fport)
-	if err != nil {
-		panic(err)
-	}
+	follower, fport := startOwn(fdir, ownPort())
 	defer func() { follower.Kill() }()
 	if sc.Init == "unrelated" || sc.Init == "diverged" {
 		c := follower.MustDial()
@@ -362,6 +442,7 @@ func (x *ctx) runScenario(sc Scenario, dir string) {
 		x.dist("fault:" + st.Fault)
 		sig := func(class string) string { return class + ":init=" + sc.Init + ":" + sizeClass(sc) + ":" + st.Fault }
 		nBefore := px.NumSessions()
+		truncBefore := countTruncations(follower)
 		var planMu sync.Mutex
 		ackedSize := int64(-1)
 		px.SetPlan(func(pos, leaderSz int64) int64 {
@@ -398,7 +479,11 @@ func (x *ctx) runScenario(sc Scenario, dir string) {
 			if st.Fault == "restart-kill" {
 				follower.Kill()
 			} else {
-				follower.Stop()
+				follower.Signal(syscall.SIGTERM)
+				if !follower.WaitExit(3 * time.Second) {
+					x.dist("sigterm-took-over-3s")
+					follower.Kill()
+				}
 			}
 			px.KillAll()
 			doLeader(st.Writes)
@@ -406,10 +491,7 @@ func (x *ctx) runScenario(sc Scenario, dir string) {
 			lsize, ackDone = setAcked()
 			fsnap, _ = os.ReadFile(fAOF)
 			fsnapOK = true
-			follower, err = srv.StartPort(fdir, fport)
-			if err != nil {
-				panic(err)
-			}
+			follower, fport = startOwn(fdir, fport)
 		case "killconn":
 			px.KillAll()
 			doLeader(st.Writes)
@@ -477,12 +559,12 @@ func (x *ctx) runScenario(sc Scenario, dir string) {
 			if valid && fsnapOK {
 				lnow, _ := os.ReadFile(leaderAOF)
 				if int64(len(lnow)) == lsize {
-					x.correspond(sc, si, st, ses, fsnap, lnow)
+					x.correspond(sc, si, st, ses, fsnap, lnow, lastTruncation(follower, truncBefore))
 				} else {
 					x.dist("corr-skipped-leader-file-not-at-aofsize")
 				}
 			} else if valid {
-				x.dist("corr-skipped-follower-file-not-flushed")
+				x.dist("corr-skipped-follower-file-not-flushed:" + st.Fault)
 			}
 			if ses.StallAt >= 0 {
 				select {
@@ -596,12 +678,48 @@ func hexRecords(recs [][]byte) string {
 	}
 	parts := make([]string, len(recs))
 	for i, r := range recs {
-		parts[i] = model.H(string(r))
+		parts[i] = "h" + model.H(string(r))
 	}
 	return strings.Join(parts, ",")
 }
 
-func (x *ctx) correspond(sc Scenario, si int, st Step, ses *session, f, l []byte) {
+// diffRecords renders records as runs: z<n> = n bytes equal to other at the same offset (or other == nil), o<n> = different.
+func diffRecords(recs [][]byte, other []byte) string {
+	if len(recs) == 0 {
+		return "-"
+	}
+	var sb strings.Builder
+	off := 0
+	for i, r := range recs {
+		if i > 0 {
+			sb.WriteByte(',')
+		}
+		j := 0
+		first := true
+		for j < len(r) {
+			differs := func(k int) bool { return other != nil && off+k < len(other) && other[off+k] != r[k] }
+			d := differs(j)
+			k := j
+			for k < len(r) && differs(k) == d {
+				k++
+			}
+			if !first {
+				sb.WriteByte('+')
+			}
+			first = false
+			if d {
+				sb.WriteString("o" + strconv.Itoa(k-j))
+			} else {
+				sb.WriteString("z" + strconv.Itoa(k-j))
+			}
+			j = k
+		}
+		off += len(r)
+	}
+	return sb.String()
+}
+
+func (x *ctx) correspond(sc Scenario, si int, st Step, ses *session, f, l []byte, truncTo int64) {
 	if x.drv == nil {
 		return
 	}
@@ -615,13 +733,21 @@ func (x *ctx) correspond(sc Scenario, si int, st Step, ses *session, f, l []byte
 		x.dist("corr-skipped-follower-file-torn")
 		return
 	}
-	rep := x.drv.Ask("check_some", strconv.Itoa(checksumsz), hexRecords(frecs), hexRecords(lrecs))
+	var rep string
+	if len(f) < 64<<10 && len(l) < 64<<10 {
+		rep = x.drv.Ask("check_some", "repaired", strconv.Itoa(checksumsz), hexRecords(frecs), hexRecords(lrecs))
+	} else {
+		// check_some depends on the bytes only through equality of equal-offset blocks and through record lengths:
+		// megabyte files are sent as a difference encoding (follower all 0, leader 0 where equal / 1 where different)
+		x.dist("corr-diff-encoded")
+		rep = x.drv.Ask("check_some", "repaired", strconv.Itoa(checksumsz), diffRecords(frecs, nil), diffRecords(lrecs, f))
+	}
 	// observed: probes with match computed from the follower's own file
 	var obs []string
 	for _, p := range ses.Probes {
 		pos, _ := strconv.Atoi(p[0])
 		size, _ := strconv.Atoi(p[1])
-		res := "eof"
+		res := "mismatch" // EOF on the leader is "no match" (matchChecksums)
 		if p[2] != "EOF" {
 			res = "mismatch"
 			if pos+size <= len(f) {
@@ -632,7 +758,11 @@ func (x *ctx) correspond(sc Scenario, si int, st Step, ses *session, f, l []byte
 		}
 		obs = append(obs, fmt.Sprintf("%d:%s", pos, res))
 	}
-	impl := fmt.Sprintf("pos=%d probes=%s", ses.Pos, strings.Join(obs, "|"))
+	trunc := "no"
+	if truncTo >= 0 {
+		trunc = "yes"
+	}
+	impl := fmt.Sprintf("pos=%d probes=%s truncated=%s", ses.Pos, strings.Join(obs, "|"), trunc)
 	// the model's reply: "pos=<p> action=<a> probes=<p:res|...>"; only pos and probes are visible on the wire
 	mpos, mprobes, maction := "", "", ""
 	for _, kv := range strings.Fields(rep) {
@@ -646,7 +776,11 @@ func (x *ctx) correspond(sc Scenario, si int, st Step, ses *session, f, l []byte
 		}
 	}
 	x.dist("corr:" + maction)
-	if mpos+" "+mprobes != impl {
+	mtrunc := "no"
+	if strings.HasPrefix(maction, "action=truncate:") {
+		mtrunc = "yes"
+	}
+	if mpos+" "+mprobes+" truncated="+mtrunc != impl {
 		x.fail(hx.Failure{Kind: "correspondence", Signature: "check-some-decision", What: "followCheckSome's probe sequence / resume position differs from the model's check_some on the same files",
 			Case: map[string]interface{}{"scenario": caseOf(sc, si), "follower_file_bytes": len(f), "leader_file_bytes": len(l)}, Impl: impl, Model: rep})
 	}
@@ -668,6 +802,7 @@ func runC06(r *hx.Result, cfg hx.Config) {
 	rng := rand.New(rand.NewSource(cfg.Seed))
 	var scs []Scenario
 	scs = append(scs, corpusScenarios()...)
+	scs = append(scs, boundaryScenario(rand.New(rand.NewSource(7)), "corpus-prefix-record-ends-at-checksumsz"))
 	nSmall, nLarge := 14, 0
 	if cfg.Tier == "thorough" {
 		nSmall, nLarge = 60, 18
@@ -680,6 +815,9 @@ func runC06(r *hx.Result, cfg hx.Config) {
 	}
 	for i := 0; i < nLarge; i++ {
 		scs = append(scs, genScenario(rng, i, true))
+		if i%6 == 5 {
+			scs = append(scs, boundaryScenario(rng, fmt.Sprintf("gen-boundary-%d", i)))
+		}
 	}
 	for _, sc := range scs {
 		r.Dist("init:" + sc.Init + ":" + sizeClass(sc))
